@@ -16,7 +16,7 @@
    stage's input / output; [offin e]/[offout e] = the beat on offer in that cycle; [holdW w] = on wire w a
    beat that is valid and not accepted is offered unchanged in the next cycle; [prefix]. *)
 From Coq Require Import List NArith Bool Arith Lia.
-From Gatery Require Import StreamDefs StreamSpec StreamCompose StreamStages StreamHold StreamPacket StreamMeta StreamChain StreamLive StreamRefute StreamTop.
+From Gatery Require Import StreamDefs StreamSpec StreamCompose StreamStages StreamHold StreamPacket StreamMeta StreamRs StreamChain StreamLive StreamRefute StreamTop.
 Import ListNotations.
 
 (* ---------------------------------------------------------------- stage_transfers, register stages *)
@@ -275,6 +275,73 @@ Proof.
   cbv zeta. split; [|split].
   - vm_compute. repeat split; intros; try reflexivity; try discriminate; try exact I.
   - vm_compute; reflexivity.
+  - vm_compute; reflexivity.
+Qed.
+
+
+(* ---------------------------------------------------------------- streams without a Valid signal (RsPacketStream, SPacketStream) *)
+(* metaSignals.h derives valid() = flag(sop & ready, eop & ready) | sop.  [rs_flags] is that flag register run over a
+   wire trace of (sop, eop, ready) triples; [inpkt] is the specification "inside a packet", defined from the
+   transfers alone (a beat is transferred when it is on offer -- inside a packet or sop -- and ready is high; the
+   packet ends when a beat with eop is transferred).  They agree on EVERY trace, from every start value: *)
+Theorem rs_flag_is_inside_packet : forall w f, rs_flags f w = inpkt f w.
+Proof. exact rs_flag_is_inside_packet_l. Qed.
+Print Assumptions rs_flag_is_inside_packet.
+
+(* hence valid = inside a packet or at its first beat, in every cycle, whatever ready does *)
+Theorem rs_valid_is_inside_or_sop : forall w,
+  map (fun p => rs_valid (fst p) (fst (fst (snd p)))) (combine (rs_flags false w) w) =
+  map (fun p => fst p || fst (fst (snd p))) (combine (inpkt false w) w).
+Proof. exact rs_valid_is_inside_or_sop_l. Qed.
+Print Assumptions rs_valid_is_inside_or_sop.
+
+(* the flagInstantSet variant (valid = flag | sop & ready) makes the first beat of a packet wait for ready *)
+Theorem rs_valid_instantset_refuted :
+  rs_valid false true = true /\ rs_valid_instantset false true false = false.
+Proof. exact StreamRs.rs_valid_instantset_refuted. Qed.
+Print Assumptions rs_valid_instantset_refuted.
+
+(* An Rs stream runs through the SAME stage machines: [rsCycles S rcs] turns the per-cycle (sop, payload, eop,
+   meta, ready_out) of the Rs producer into the stage inputs by supplying the derived valid (the flag uses the
+   ready the stage itself returns).  The valid the stage sees is the specified one w.r.t. the transfers at its input: *)
+Theorem rs_stage_sees_specified_valid : forall S rcs,
+  map (fun c => bvalid (c_in c)) (rsCycles S rcs) =
+  map (fun p => fst p || r_sop (snd p))
+      (combine (inpkt false (map (fun p => (r_sop (fst p), r_eop (fst p), e_rin (snd p)))
+                                 (combine rcs (trace S (rsCycles S rcs))))) rcs).
+Proof. exact rs_stage_sees_specified_valid_l. Qed.
+Print Assumptions rs_stage_sees_specified_valid.
+
+(* ... so every theorem above (they quantify over ALL input sequences cs) holds for Rs runs; two instances spelled out *)
+Theorem rs_reduceWidth_transfers : forall r rcs, 1 <= r ->
+  let cs := rsCycles (reduceS r) rcs in
+  holdW (inW (trace (reduceS r) cs)) ->
+  exists pend, Tout (trace (reduceS r) cs) = unpack r (Tin (trace (reduceS r) cs)) ++ pend /\ length pend < r.
+Proof. exact rs_reduceWidth_transfers_l. Qed.
+Print Assumptions rs_reduceWidth_transfers.
+
+Theorem rs_stage_transfers_conformant : forall d rcs c, wfd d ->
+  let cs := rsCycles (denote d) rcs in
+  stalls_ok d (cs ++ [c]) -> holdW (inW (trace (denote d) (cs ++ [c]))) ->
+  prefix (Tout (trace (denote d) cs) ++ offout (evAt (denote d) (after (denote d) cs) c))
+         (fn d (Tin (trace (denote d) cs) ++ offin (evAt (denote d) (after (denote d) cs) c))) /\
+  length (fn d (Tin (trace (denote d) (cs ++ [c])))) <= length (Tout (trace (denote d) (cs ++ [c]))) + capd d /\
+  holdW (outW (trace (denote d) (cs ++ [c]))).
+Proof. exact rs_chain_transfers_l. Qed.
+Print Assumptions rs_stage_transfers_conformant.
+
+Example rs_reduceWidth_16_to_8 :
+  (* RsPacketStream, 2 digits -> 1: a two-beat packet (sop on the first wide beat only), consumer ready every other cycle *)
+  let r1 := mkRs [] true [1%N; 2%N] false 3%N in let r2 := mkRs [] false [3%N; 4%N] true 3%N in
+  let rcs := [r1 true; r1 false; r1 true; r2 false; r2 true; r2 false; r2 true] in
+  let cs := rsCycles (reduceS 2) rcs in
+  map (fun c => bvalid (c_in c)) cs = [true; true; true; true; true; true; true] /\
+  holdW (inW (trace (reduceS 2) cs)) /\
+  Tout (trace (reduceS 2) cs) = [([1%N], false, 3%N); ([2%N], false, 3%N); ([3%N], false, 3%N); ([4%N], true, 3%N)].
+Proof.
+  cbv zeta. split; [|split].
+  - vm_compute; reflexivity.
+  - vm_compute. repeat split; intros; try reflexivity; try discriminate; try exact I.
   - vm_compute; reflexivity.
 Qed.
 
